@@ -290,14 +290,15 @@ func (s *state) CheckBody(ctx context.Context, hdr textproto.Header, _ buffer.Bu
 		senderAddr = sender.Address
 	}
 
+	// A temporary failure (the table is not available) is not "no match".
 	res := s.authzSender(ctx, authName, fromEmail)
-	if res.Reason == nil {
+	if res.Reason == nil || exterrors.IsTemporary(res.Reason) {
 		return res
 	}
 
 	if senderAddr != "" && senderAddr != fromEmail {
 		res = s.authzSender(ctx, authName, senderAddr)
-		if res.Reason == nil {
+		if res.Reason == nil || exterrors.IsTemporary(res.Reason) {
 			return res
 		}
 	}
